@@ -618,6 +618,34 @@ class AsyncLoopContext(LoopContext):
 
         return self._length
 
+    def __len__(self) -> int:
+        # ``len()`` cannot await the ``length`` coroutine. Answer from what is
+        # known without consuming an async iterator, like the sync loop does
+        # for sized iterables; otherwise point at ``loop.length``.
+        if self._length is not None:
+            return self._length
+
+        try:
+            self._length = len(self._iterable)  # type: ignore
+        except TypeError:
+            raise TypeError(
+                "the length of a loop over an iterable without len() is only"
+                " available as 'loop.length' in async mode"
+            ) from None
+
+        return self._length
+
+    def __repr__(self) -> str:
+        length: t.Any = self._length
+
+        if length is None:
+            try:
+                length = len(self._iterable)  # type: ignore
+            except TypeError:
+                length = "?"
+
+        return f"<{type(self).__name__} {self.index}/{length}>"
+
     @property
     async def revindex0(self) -> int:  # type: ignore
         return await self.length - self.index
